@@ -23,6 +23,7 @@ CLAIM = (
     "read on the unchanged tree (baselines/skips.json): a new skip means elements that were handled are no longer handled."
     " TRUTHY: in the modules in scope no Optional[int|str|float|bytes] is tested by truthiness (a bound of 0 or an empty pattern is a "
     "constraint, not the absence of one); zero instances on the unchanged tree, kept alive by a positive control."
+    " OCCURS also requires each bound to be taken whenever it is set, independently of the other bound. BOUND / DIR / INTER (shared with C15) decide the arithmetic and folding direction of the inference that feeds the facets."
 )
 NOTE = (
     "Not decided: the verdict of a validator on a mutated document (runtime). Documented exclusions of the property: tightenings by "
